@@ -1163,3 +1163,49 @@ Theorem signal_leader_only_refuted :
   exists L c tb, any_alive (in_group L (sig_pid L (spawn L c tb))) = true /\
                  any_alive (in_group L (sig_group L (spawn L c tb))) = false.
 Proof. exists 10, 11, [mkProc 10 10 true]. split; vm_compute; reflexivity. Qed.
+
+(* ================================================================== calculate_order: overrides or the file *)
+Lemma calculate_order_args_given : forall ord rv x v b file sysbox,
+  calculate_order_args ord rv (Some x) (Some v) (Some b) file sysbox = calc_order ord rv x v b.
+Proof. reflexivity. Qed.
+
+Lemma calculate_order_args_fallback : forall ord rv xyz vel box file sysbox,
+  xyz = None \/ vel = None \/ box = None ->
+  calculate_order_args ord rv xyz vel box file sysbox
+  = calc_order ord rv (fc_pos file) (fc_vel file) (match fc_box file with Some b => b | None => sysbox end).
+Proof.
+  intros ord rv xyz vel box file sysbox H. unfold calculate_order_args.
+  destruct xyz, vel, box; try reflexivity.
+  destruct H as [H|[H|H]]; discriminate.
+Qed.
+
+(* with a box override that is never None, the spelled-out call site is the loop of Section
+   Inproc: every stored order parameter is that of the step's own state, whatever the initial
+   configuration file contains or lacks *)
+Lemma inproc_loop_args_own_box : forall fx ord left right rv s boxarg init sysbox,
+  (forall c, boxarg c = Some (cbox c)) ->
+  forall fine i p step,
+  inproc_loop_args fx ord left right rv s boxarg init sysbox fine i p step
+  = inproc_loop fx ord left right rv s fine i p step.
+Proof.
+  intros fx ord left right rv s boxarg init sysbox HB.
+  induction fine as [|c r IH]; intros i p step; cbn [inproc_loop_args inproc_loop]; [reflexivity|].
+  destruct (i mod s =? 0)%nat; [|apply IH].
+  rewrite HB. cbn [calculate_order_args].
+  destruct (add_to_path_x fx p (snapshot rv (calc_order ord rv (cpos c) (cvel c) (cbox c)) step) left right)
+    as [[[[p1 b] st] ad]|]; [|reflexivity].
+  destruct st; [reflexivity|apply IH].
+Qed.
+
+(* a box override taken from the initial FILE is None when that file has no box entry: every
+   in-loop call then falls back to the file and stores the order parameter of the initial
+   configuration; the crossing (third state: 5 > 4) is never seen and the run goes on to maxlen *)
+Lemma inproc_loop_args_file_box_refuted :
+  let ord := fun p v b : Z => p in
+  let fine := [mkC 1 1 0; mkC 3 1 0; mkC 5 1 0; mkC 7 1 0] in
+  let init := mkFC 1 1 None in
+  inproc_loop true ord 0 4 false 1 fine 0 (empty_path 4 0) 0
+  = Ret (mkP [mkF 1 0 false 0; mkF 3 1 false 1; mkF 5 2 false 2] 4 0) true PNone /\
+  inproc_loop_args true ord 0 4 false 1 (fun _ => fc_box init) init 0 fine 0 (empty_path 4 0) 0
+  = Ret (mkP [mkF 1 0 false 0; mkF 1 1 false 1; mkF 1 2 false 2; mkF 1 3 false 3] 4 0) false PNone.
+Proof. split; vm_compute; reflexivity. Qed.
